@@ -407,7 +407,7 @@ func c16Indices(r *Run) {
 				name := r.D.allocName(a)
 				for _, st := range r.StoresTo(af, "&("+name+".index)") {
 					got := r.D.Lin(st.Val, nil).String()
-					r.Check("flatten:index", glob("+*p0.Start* +φ* +1", got) || glob("+φ* +*p0.Start* +1", got) || glob("+p0.Start +φ* +1", got), r.Where(st), "entry index = "+got+" (batch.Start + i)")
+					r.Check("flatten:index", linNoConst(got) && (glob("+*p0.Start* +φ*", got) || glob("+φ* +*p0.Start*", got) || glob("+p0.Start +φ*", got)), r.Where(st), "entry index = "+got+" (batch.Start + i)")
 					// and the entry is element i of the batch
 					for _, se := range r.StoresTo(af, "&("+name+".entry)") {
 						idx := ""
@@ -428,13 +428,13 @@ func c16Indices(r *Run) {
 	if fn := r.Fn("(*trillian/migrillian/core.PreorderedLogClient).addSequencedLeaves"); fn != nil {
 		for _, c := range CallsTo(fn, "(*trillian/migrillian/core.PreorderedLogClient).buildLogLeaf") {
 			got := r.D.Lin(CallArgs(c)[1], nil).String()
-			r.Check("migrillian:index", glob("+p2.Start +φ* +1", got) || glob("+φ* +p2.Start +1", got), r.Where(c), "leaf index = "+got+" (batch.Start + i)")
+			r.Check("migrillian:index", linNoConst(got) && (glob("+p2.Start +φ*", got) || glob("+φ* +p2.Start", got)), r.Where(c), "leaf index = "+got+" (batch.Start + i)")
 		}
 	}
 	if fn := r.Fn("(*client.LogClient).GetEntries"); fn != nil {
 		for _, c := range CallsTo(fn, "ct.LogEntryFromLeaf") {
 			got := r.D.Lin(CallArgs(c)[0], nil).String()
-			r.Check("client.GetEntries:index", glob("+p2 +φ* +1", got) || glob("+φ* +p2 +1", got), r.Where(c), "entry index = "+got+" (start + i)")
+			r.Check("client.GetEntries:index", linNoConst(got) && (glob("+p2 +φ*", got) || glob("+φ* +p2", got)), r.Where(c), "entry index = "+got+" (start + i)")
 		}
 	}
 }
